@@ -729,7 +729,10 @@ def none_const(sort):
     if k not in _none_consts:
         _none_consts[k] = z3.Const('none:' + k, sort)
         if sort == Opaque:
+            xo = z3.Const('xo', Opaque)
             axiom('none.opaque', T_isnone(_none_consts[k]), ['none:' + k], 'definitional')
+            axiom('none.unique', forall([xo], z3.Implies(T_isnone(xo), xo == _none_consts[k]), [T_isnone(xo)]),
+                  ['none:' + k], 'definitional')
     return _none_consts[k]
 
 
